@@ -433,3 +433,10 @@ func (la *LockAnalysis) call(fr *frame, c *ssa.CallCommon, h lockset, site ssa.I
 	}
 	la.analyse(sub, h, depth+1)
 }
+
+// ObjOfIn names the object designated by address v inside fn (closure captures resolved to the enclosing function's variables).
+func (la *LockAnalysis) ObjOfIn(fn *ssa.Function, recvObj string, v ssa.Value) string {
+	fr := &frame{fn: fn, recv: recvObj, free: map[*ssa.FreeVar]string{}, params: map[*ssa.Parameter]string{}}
+	la.bindFree(fr, nil)
+	return la.objOf(fr, v)
+}
